@@ -4,7 +4,9 @@ package main
 
 // Output readers: turn the text of a report into records. Each reader is
 // written against the format strings of the report and must account for every
-// byte; anything it cannot read is a harness fault (exit 2), never a violation.
+// byte. On the unchanged tree every report of the generated domain is readable (hundreds of thousands of cases in the
+// thorough tier); a report that cannot be read is therefore reported as a failure of the case (the report is not what
+// the property describes), with the offending line in the message.
 
 import (
 	"regexp"
@@ -20,7 +22,7 @@ func vLines(s string) []string {
 		return nil
 	}
 	if !strings.HasSuffix(s, "\n") {
-		vFault("output does not end with a newline: %q", vTrunc(s, 300))
+		vViolate("output does not end with a newline: %q", vTrunc(s, 300))
 	}
 	return strings.Split(strings.TrimSuffix(s, "\n"), "\n")
 }
@@ -61,10 +63,10 @@ func vReadRegister(out string) []vRegDay {
 			cur = &days[len(days)-1]
 			inTotals = false
 		case cur == nil:
-			vFault("register: row before any date line: %q", ln)
+			vViolate("register: row before any date line: %q", ln)
 		case vRegHeaderRe.MatchString(ln):
 			if cur.TotalHeader {
-				vFault("register: two TOTAL headers in one day")
+				vViolate("register: two TOTAL headers in one day")
 			}
 			cur.TotalHeader = true
 			inTotals = true
@@ -72,13 +74,13 @@ func vReadRegister(out string) []vRegDay {
 			if inTotals {
 				m := vRegTotalRe.FindStringSubmatch(ln)
 				if m == nil {
-					vFault("register: unreadable total row %q", ln)
+					vViolate("register: unreadable total row %q", ln)
 				}
 				cur.Totals = append(cur.Totals, vRegTotal{m[1], m[2], m[3], m[4]})
 			} else {
 				m := vRegIngRe.FindStringSubmatch(ln)
 				if m == nil || len(cur.Foods) == 0 {
-					vFault("register: unreadable ingredient row %q", ln)
+					vViolate("register: unreadable ingredient row %q", ln)
 				}
 				f := &cur.Foods[len(cur.Foods)-1]
 				f.Ingrs = append(f.Ingrs, vRegIng{m[1], m[2]})
@@ -86,7 +88,7 @@ func vReadRegister(out string) []vRegDay {
 		default:
 			m := vRegFoodRe.FindStringSubmatch(ln)
 			if m == nil || inTotals {
-				vFault("register: unreadable food row %q", ln)
+				vViolate("register: unreadable food row %q", ln)
 			}
 			cur.Foods = append(cur.Foods, vRegFood{Name: m[1], Val: m[2]})
 		}
@@ -110,7 +112,7 @@ func vReadRegisterLA(out string) []vRegDay {
 		switch {
 		case vLAHeaderRe.MatchString(ln):
 			if cur == nil || cur.TotalHeader {
-				vFault("register(left-aligned): misplaced TOTAL header")
+				vViolate("register(left-aligned): misplaced TOTAL header")
 			}
 			cur.TotalHeader = true
 			inTotals = true
@@ -119,24 +121,24 @@ func vReadRegisterLA(out string) []vRegDay {
 			cur = &days[len(days)-1]
 			inTotals = false
 		case cur == nil:
-			vFault("register(left-aligned): row before any date line: %q", ln)
+			vViolate("register(left-aligned): row before any date line: %q", ln)
 		case inTotals:
 			m := vLATotalRe.FindStringSubmatch(ln)
 			if m == nil {
-				vFault("register(left-aligned): unreadable total row %q", ln)
+				vViolate("register(left-aligned): unreadable total row %q", ln)
 			}
 			cur.Totals = append(cur.Totals, vRegTotal{m[4], m[1], m[2], m[3]})
 		default:
 			if m := vLAIngRe.FindStringSubmatch(ln); m != nil {
 				if len(cur.Foods) == 0 {
-					vFault("register(left-aligned): ingredient before food: %q", ln)
+					vViolate("register(left-aligned): ingredient before food: %q", ln)
 				}
 				f := &cur.Foods[len(cur.Foods)-1]
 				f.Ingrs = append(f.Ingrs, vRegIng{m[2], m[1]})
 			} else if m := vLAFoodRe.FindStringSubmatch(ln); m != nil {
 				cur.Foods = append(cur.Foods, vRegFood{Name: m[2], Val: m[1]})
 			} else {
-				vFault("register(left-aligned): unreadable row %q", ln)
+				vViolate("register(left-aligned): unreadable row %q", ln)
 			}
 		}
 	}
@@ -167,18 +169,18 @@ func vReadSummary(out string) []vSumDay {
 			continue
 		}
 		if cur == nil {
-			vFault("summary: row before any date line: %q", ln)
+			vViolate("summary: row before any date line: %q", ln)
 		}
 		if ln == "------------" {
 			if after {
-				vFault("summary: two separators in one day")
+				vViolate("summary: two separators in one day")
 			}
 			after = true
 			continue
 		}
 		m := vSumRowRe.FindStringSubmatch(ln)
 		if m == nil {
-			vFault("summary: unreadable row %q", ln)
+			vViolate("summary: unreadable row %q", ln)
 		}
 		if after {
 			cur.Foods = append(cur.Foods, vSumRow{m[1], m[2]})
@@ -215,11 +217,11 @@ func vReadBalance(out string, single bool) vBalOut {
 	lines := vLines(out)
 	if single {
 		if len(lines) < 2 || lines[len(lines)-2] != strings.Repeat("-", 11)+"|" {
-			vFault("balance -s: missing total separator in %q", vTrunc(out, 400))
+			vViolate("balance -s: missing total separator in %q", vTrunc(out, 400))
 		}
 		m := vBalRowRe.FindStringSubmatch(lines[len(lines)-1])
 		if m == nil || len(m[2]) > 1 {
-			vFault("balance -s: unreadable total row %q", lines[len(lines)-1])
+			vViolate("balance -s: unreadable total row %q", lines[len(lines)-1])
 		}
 		b.HasTotal, b.Total, b.TotalOf = true, m[1], m[2]+m[3]
 		lines = lines[:len(lines)-2]
@@ -228,7 +230,7 @@ func vReadBalance(out string, single bool) vBalOut {
 	for _, ln := range lines {
 		m := vBalRowRe.FindStringSubmatch(ln)
 		if m == nil {
-			vFault("balance: unreadable row %q", ln)
+			vViolate("balance: unreadable row %q", ln)
 		}
 		depth := len(m[2]) / 2
 		name := m[3]
@@ -236,7 +238,7 @@ func vReadBalance(out string, single bool) vBalOut {
 			name = " " + name
 		}
 		if depth > len(stack) {
-			vFault("balance: row %q is indented deeper than its predecessor allows", ln)
+			vViolate("balance: row %q is indented deeper than its predecessor allows", ln)
 		}
 		stack = append(stack[:depth], name)
 		b.Rows = append(b.Rows, vBalRow{Val: m[1], Depth: depth, Name: name, Path: strings.Join(stack, "/")})
@@ -256,7 +258,7 @@ func vReadValName(out string) []vValName {
 	for _, ln := range vLines(out) {
 		m := vTabRowRe.FindStringSubmatch(ln)
 		if m == nil {
-			vFault("unreadable value/name row %q", ln)
+			vViolate("unreadable value/name row %q", ln)
 		}
 		rows = append(rows, vValName{m[1], m[2]})
 	}
@@ -274,13 +276,13 @@ func vReadTotals(out string) []vTotRow {
 		return nil
 	}
 	if strings.Join(strings.Fields(lines[0]), " ") != "positive negative sum element" {
-		vFault("report totals: unexpected header %q", lines[0])
+		vViolate("report totals: unexpected header %q", lines[0])
 	}
 	var rows []vTotRow
 	for _, ln := range lines[1:] {
 		m := vTotRowRe.FindStringSubmatch(ln)
 		if m == nil {
-			vFault("report totals: unreadable row %q", ln)
+			vViolate("report totals: unreadable row %q", ln)
 		}
 		rows = append(rows, vTotRow{m[1], m[2], m[3], m[4]})
 	}
@@ -296,7 +298,7 @@ func vReadSingle(out string, name string) []vSingleRow {
 	for _, ln := range vLines(out) {
 		m := re.FindStringSubmatch(ln)
 		if m == nil {
-			vFault("reg -s: unreadable row %q", ln)
+			vViolate("reg -s: unreadable row %q", ln)
 		}
 		rows = append(rows, vSingleRow{m[1], name, m[2], m[3], m[4]})
 	}
@@ -311,7 +313,7 @@ func vReadSingleFood(out string) []vFoodLine {
 	for _, ln := range vLines(out) {
 		parts := strings.Split(ln, "\t")
 		if len(parts) != 3 || !regexp.MustCompile(`^`+vNumPat+`$`).MatchString(parts[2]) {
-			vFault("reg -f: unreadable row %q", ln)
+			vViolate("reg -f: unreadable row %q", ln)
 		}
 		rows = append(rows, vFoodLine{parts[0], parts[1], parts[2]})
 	}
@@ -341,12 +343,12 @@ func vReadPrint(out string) []vPrintDay {
 		switch {
 		case ln == "":
 			if cur == nil {
-				vFault("print: blank line before any day")
+				vViolate("print: blank line before any day")
 			}
 			cur = nil
 		case strings.HasPrefix(ln, "  # "):
 			if cur == nil || len(cur.Foods) > 0 {
-				vFault("print: misplaced note %q", ln)
+				vViolate("print: misplaced note %q", ln)
 			}
 			body := ln[4:]
 			if k := strings.Index(body, ": "); k >= 0 {
@@ -357,21 +359,21 @@ func vReadPrint(out string) []vPrintDay {
 		case strings.HasPrefix(ln, "  - "):
 			m := vPrintEntryRe.FindStringSubmatch(ln)
 			if m == nil || cur == nil {
-				vFault("print: unreadable entry %q", ln)
+				vViolate("print: unreadable entry %q", ln)
 			}
 			cur.Foods = append(cur.Foods, vValName{m[2], m[1]})
 		case strings.HasSuffix(ln, ":") && !strings.HasPrefix(ln, " "):
 			if cur != nil {
-				vFault("print: day %q starts before the previous block ended", ln)
+				vViolate("print: day %q starts before the previous block ended", ln)
 			}
 			days = append(days, vPrintDay{Date: strings.TrimSuffix(ln, ":")})
 			cur = &days[len(days)-1]
 		default:
-			vFault("print: unreadable line %q", ln)
+			vViolate("print: unreadable line %q", ln)
 		}
 	}
 	if cur != nil {
-		vFault("print: last block is not terminated by a blank line")
+		vViolate("print: last block is not terminated by a blank line")
 	}
 	return days
 }
@@ -393,12 +395,12 @@ func vReadStats(out string) vStatsOut {
 	var s vStatsOut
 	lines := vLines(out)
 	if len(lines) != 8 || lines[2] != "" {
-		vFault("stats: unexpected shape %q", out)
+		vViolate("stats: unexpected shape %q", out)
 	}
 	get := func(ln, label string) string {
 		p := "  " + label
 		if !strings.HasPrefix(ln, p) {
-			vFault("stats: expected %q in %q", label, ln)
+			vViolate("stats: expected %q in %q", label, ln)
 		}
 		return strings.TrimLeft(ln[len(p):], " ")
 	}
@@ -410,7 +412,7 @@ func vReadStats(out string) vStatsOut {
 	f := vStatsAgoRe.FindStringSubmatch(get(lines[6], "First record:"))
 	l := vStatsAgoRe.FindStringSubmatch(get(lines[7], "Last record:"))
 	if f == nil || l == nil {
-		vFault("stats: unreadable first/last rows in %q", out)
+		vViolate("stats: unreadable first/last rows in %q", out)
 	}
 	s.First, s.FirstAgo, s.Last, s.LastAgo = f[1], f[2], l[1], l[2]
 	return s
